@@ -6,16 +6,17 @@ legs: MC   TLC checks the laws of the inventory algebra (monoid, F(a+b) = F(a)+F
            space, and -- on the mechanism of the `balance` column (row context, per-row memo, WHERE conjuncts with
            short circuit, targets, an interposed IN-subquery scan) -- that every delivered value is the sum over the
            postings for which balance has been consulted, hence the prefix sum over the selection, the last one
-           sum(position), for every number k of references.  Non-vacuity: the mechanism as shipped (one process-wide
-           entry) and the mechanism without a memo must be rejected; a cost-losing sum must break the laws.
+           sum(position), for every number k of references.  Non-vacuity: the mechanism as shipped before fix 678e809 (one
+           process-wide entry) and the mechanism without a memo must be rejected; a cost-losing sum must break the laws.
       S2C  TLC (simulation over a step-by-step case builder) emits ledgers x selections x conjuncts x target lists
            x interposed scans x price tables with the rows, the subquery result and all aggregate expectations; the
            driver builds the real ledger, runs the statements through beanquery.connect(...) and compares.
       C2S  windows of the Beancount example ledger and seeded random ledgers: the driver records positions, masks,
            the balance column, per-row f(position), sums, f of sums and grouped sums; TLC (Trace_Balance) judges them
            with SerialRows and the Inventory operators.
-      A mismatch is replayed by TLC on the mechanism AS SHIPPED (Trace_Balance_shipped.cfg): only if that explains the
-      observation exactly, and the statement has the known shape, it is the known finding; anything else is a violation.
+      A mismatch is replayed by TLC on the mechanism as shipped before fix 678e809 (Trace_Balance_shipped.cfg, one
+      process-wide cache entry): if that explains the observation exactly and the statement has the matching shape the
+      violation gets the key of that defect (listed as fixed in known_findings.d), otherwise a key naming the statement shape.
 """
 import datetime
 import io
@@ -397,10 +398,32 @@ def mul_in_domain(jpos, jprices, sc):
     return True
 
 
+def corrupted_copies(lines):
+    """binding self-test: copies of two accepted-looking lines with ONE number changed; TLC must reject exactly these"""
+    import copy
+    out = []
+    for ln in lines:
+        if ln['k'] == 'serial' and any(v for r in ln['rows'] for v in r[1]):
+            c = copy.deepcopy(ln)
+            row = next(r for r in c['rows'] if any(v for v in r[1]))
+            inv = next(v for v in row[1] if v)
+            inv[0][1] += 1
+            out.append(c)
+            break
+    for ln in lines:
+        if ln['k'] == 'hom' and ln['f_sum']:
+            c = copy.deepcopy(ln)
+            c['f_sum'][0][1] += 1
+            out.append(c)
+            break
+    return out
+
+
 def validate(ctx, lines, suspects):
     path = ctx.path('c12_trace.ndjson')
+    probes = corrupted_copies(lines)
     with open(path, 'w') as f:
-        for ln in lines:
+        for ln in lines + probes:
             f.write(json.dumps({k: v for k, v in ln.items() if not k.startswith('_')}) + '\n')
     res = ctx.tlc('Trace_Balance', 'Trace_Balance.cfg', leg='C2S', workers=1, env={'TRACE_FILE': path},
                   timeout=ctx.pick(600, 3000), jvm=('-Xss64m',))
@@ -409,8 +432,14 @@ def validate(ctx, lines, suspects):
     if res.violated:
         ctx.violation('balance:trace-invariant:' + ','.join(res.violated), 'an invariant of Balance fails on a recorded run',
                       {'behaviour': res.behaviour[:2000]}, 'C2S')
-    elif len(consumed) != 1 or consumed[0]['lines'] != len(lines):
-        raise MachineryError('trace not consumed: %s of %d lines (%s)' % (consumed, len(lines), res.errors[:2]))
+    elif len(consumed) != 1 or consumed[0]['lines'] != len(lines) + len(probes):
+        raise MachineryError('trace not consumed: %s of %d lines (%s)' % (consumed, len(lines) + len(probes), res.errors[:2]))
+    probe_lines = set(range(len(lines) + 1, len(lines) + len(probes) + 1))
+    got = {p['line'] for p in verdicts if p.get('verdict') == 'rejected'}
+    if not res.violated and not probe_lines <= got:
+        raise MachineryError('binding self-test: corrupted trace lines %s were not rejected' % sorted(probe_lines - got))
+    ctx.leg('C2S', corrupted_lines_rejected=len(probe_lines))
+    verdicts = [p for p in verdicts if p.get('line') not in probe_lines]
     rejected = [p for p in verdicts if p.get('verdict') == 'rejected']
     for rj in rejected:
         ln = lines[rj['line'] - 1]
